@@ -351,6 +351,29 @@ class BoolAbs:
             return all(rs) if isinstance(e.op, ast.And) else any(rs)
         if isinstance(e, ast.Constant):
             return bool(e.value)
+        if isinstance(e, ast.IfExp):
+            t_, b_, o_ = self.ev(e.test, val), self.ev(e.body, val), self.ev(e.orelse, val)      # (all three are visited so that every atom gets its variable)
+            return b_ if t_ else o_
+        if isinstance(e, ast.Compare) and len(e.ops) == 1:
+            l_, r_ = strip_cast(e.left), strip_cast(e.comparators[0])
+            # a conditional expression as operand: the comparison distributes over its two cases
+            if isinstance(l_, ast.IfExp):
+                t_ = self.ev(l_.test, val)
+                b_ = self.ev(ast.Compare(left=l_.body, ops=e.ops, comparators=e.comparators), val)
+                o_ = self.ev(ast.Compare(left=l_.orelse, ops=e.ops, comparators=e.comparators), val)
+                return b_ if t_ else o_
+            if isinstance(r_, ast.IfExp):
+                t_ = self.ev(r_.test, val)
+                b_ = self.ev(ast.Compare(left=e.left, ops=e.ops, comparators=[r_.body]), val)
+                o_ = self.ev(ast.Compare(left=e.left, ops=e.ops, comparators=[r_.orelse]), val)
+                return b_ if t_ else o_
+            if isinstance(l_, ast.Constant) and isinstance(r_, ast.Constant):
+                a_, b_ = l_.value, r_.value
+                op_ = e.ops[0]
+                if isinstance(op_, (ast.Is, ast.Eq)) and (a_ is None or b_ is None or isinstance(op_, ast.Eq)):
+                    return a_ == b_ if isinstance(op_, ast.Eq) else a_ is b_
+                if isinstance(op_, (ast.IsNot, ast.NotEq)) and (a_ is None or b_ is None or isinstance(op_, ast.NotEq)):
+                    return a_ != b_ if isinstance(op_, ast.NotEq) else a_ is not b_
         if isinstance(e, ast.Call) and isinstance(e.func, ast.Name) and e.func.id in ('any', 'all') and len(e.args) == 1 and not e.keywords:
             # any / all over a display, or over a generator ranging over a display of constants: a finite disjunction / conjunction
             items = _finite_items(strip_cast(e.args[0]))
@@ -582,9 +605,130 @@ def cases(fnode, expr, at_node=None, depth=0):
         defs = [(st, v) for st, v in assigned_value(fnode, expr.id) if isinstance(st, ast.Assign) and not reads_name(v, expr.id)]
         if defs:
             out = []
-            for st, v in defs:
-                base = guard_atoms(st)
+            bases = [guard_atoms(st) for st, v in defs]
+            for i, (st, v) in enumerate(defs):
+                base = list(bases[i])
+                # default-then-override: `x = A` followed by `if c: x = B` - A is the value exactly when c does not hold
+                for j, (st2, v2_) in enumerate(defs):
+                    if j != i and len(bases[j]) == len(bases[i]) + 1 and bases[j][:len(bases[i])] == bases[i] and strictly_before(fnode, st, st2):
+                        op_, l_, r_ = bases[j][-1]
+                        if op_ in _NEGOP:
+                            base.append((_NEGOP[op_], l_, r_))
                 for v2, at in cases(fnode, v, st, depth + 1):
                     out.append((v2, base + at))
             return out
     return [(expr, [])]
+
+
+def first_matches(fnode):
+    """Searches for the first element of an iterable satisfying a condition, in the forms
+         for v in IT: if C: return E          (+ return D after the loop)
+         return next((E for v in IT if C), D)
+         for v in IT: if C: r = E; break      else: r = D          (+ return r)
+       -> [(E, v, IT, [(cond expr, polarity)], D or None)]"""
+    out = []
+    for n in walk(fnode, False):
+        if isinstance(n, ast.Return) and n.value is not None:
+            v = strip_cast(n.value)
+            if isinstance(v, ast.Call) and isinstance(v.func, ast.Name) and v.func.id == 'next' and 1 <= len(v.args) <= 2 and isinstance(v.args[0], ast.GeneratorExp) \
+                    and len(v.args[0].generators) == 1 and isinstance(v.args[0].generators[0].target, ast.Name):
+                g = v.args[0].generators[0]
+                out.append((v.args[0].elt, g.target.id, g.iter, [(c, True) for c in g.ifs], v.args[1] if len(v.args) == 2 else None))
+        if isinstance(n, ast.For) and isinstance(n.target, ast.Name):
+            rets = [x for st in n.body for x in ast.walk(st) if isinstance(x, ast.Return) and enclosing(x, ast.For) is n]
+            for x in rets:
+                blk = block_of(n)
+                nxt = blk[blk.index(n) + 1] if blk and blk.index(n) + 1 < len(blk) else None
+                dflt = nxt.value if isinstance(nxt, ast.Return) else None
+                out.append((x.value, n.target.id, n.iter, [(g[0], g[1]) for g in guards(x, stop=n)], dflt))
+            brks = [x for st in n.body for x in ast.walk(st) if isinstance(x, ast.Break) and enclosing(x, ast.For) is n]
+            for b in brks:
+                blk = block_of(b)
+                prev = blk[blk.index(b) - 1] if blk.index(b) > 0 else None
+                if isinstance(prev, ast.Assign) and len(prev.targets) == 1 and isinstance(prev.targets[0], ast.Name):
+                    r = prev.targets[0].id
+                    dflt = None
+                    for st in n.orelse:
+                        if isinstance(st, ast.Assign) and isinstance(st.targets[0], ast.Name) and st.targets[0].id == r:
+                            dflt = st.value
+                    if dflt is None:
+                        inits = [val for st, val in assigned_value(fnode, r) if not in_node(st, n)]
+                        dflt = inits[0] if len(inits) == 1 else None
+                    returned = any(isinstance(x, ast.Return) and isinstance(strip_cast(x.value), ast.Name) and strip_cast(x.value).id == r for x in walk(fnode, False))
+                    if returned:
+                        out.append((prev.value, n.target.id, n.iter, [(g[0], g[1]) for g in guards(prev, stop=n)], dflt))
+    return out
+
+
+# ------------------------------------------------------------------ path conditions (structured, no CFG): disjunctive normal form
+_LEAVERS = (ast.Return, ast.Raise, ast.Continue, ast.Break)
+
+
+def _fall(stmt):
+    """Conditions (DNF: list of [(test, polarity)]) under which control continues after stmt."""
+    if isinstance(stmt, _LEAVERS):
+        return []
+    if isinstance(stmt, ast.If):
+        out = []
+        for c in _fall_block(stmt.body):
+            out.append([(stmt.test, True)] + c)
+        for c in (_fall_block(stmt.orelse) if stmt.orelse else [[]]):
+            out.append([(stmt.test, False)] + c)
+        return out
+    if isinstance(stmt, ast.Try):
+        return [[]] if (_fall_block(stmt.body) or any(_fall_block(h.body) for h in stmt.handlers)) else []
+    if isinstance(stmt, ast.With):
+        return _fall_block(stmt.body)
+    return [[]]
+
+
+def _fall_block(stmts):
+    cur = [[]]
+    for st in stmts:
+        f = _fall(st)
+        cur = [a + b for a in cur for b in f][:128]
+        if not cur:
+            return []
+    return cur
+
+
+def reach_dnf(node, stop=None):
+    """Conditions under which `node` is reached from the start of the function (or of the body of loop / statement `stop`), as a
+    disjunction of conjunctions [(test, polarity)]: the tests of enclosing ifs, and what earlier sibling statements that can leave
+    (return / raise / continue / break, possibly deep inside an if / elif / else chain) require for control to get past them."""
+    chain = []
+    cur = node
+    while cur is not None and cur is not stop:
+        par = getattr(cur, '_parent', None)
+        if par is None:
+            break
+        if isinstance(cur, ast.stmt):
+            chain.append((par, cur))
+            if isinstance(par, (ast.FunctionDef, ast.AsyncFunctionDef)):
+                break
+        cur = par
+    dnf = [[]]
+    for par, st in reversed(chain):
+        blk = None
+        pol = None
+        for fld in ('body', 'orelse', 'finalbody'):
+            b = getattr(par, fld, None)
+            if isinstance(b, list) and st in b:
+                blk = b
+                if isinstance(par, ast.If) and par is not stop:
+                    pol = fld == 'body'
+        if blk is None:
+            for h in getattr(par, 'handlers', []) or []:
+                if st in h.body:
+                    blk = h.body
+        if blk is None:
+            continue
+        if pol is not None:
+            dnf = [c + [(par.test, pol)] for c in dnf]
+        pre = _fall_block(blk[:blk.index(st)])
+        dnf = [a + b for a in dnf for b in pre][:256]
+    return dnf
+
+
+def dnf_holds(ba, dnf, val):
+    return any(all(ba.ev(e, val) == pol for e, pol in conj) for conj in dnf)
